@@ -361,4 +361,40 @@ PROPS = {
         "thorough": {"runs": [q(deadline=1200, watchdog=3600), dict(q(deadline=600, watchdog=5400), variant="tsan", args=["--mode", "threads"], env={"TSAN_OPTIONS": "halt_on_error=1:exitcode=66"})],
                      "floor": {"enum_cases": 3000, "thread_cases": 3000}},
     },
+    "C15": {
+        "eval_counter": "sequences_compared",
+        "case_counter": "optimisations_observed",
+        "rule": "every grammar of the workload (corpus, random CFGs incl. parametric templates, random JSON schemas, regexes, and 10 "
+                "hand-written shapes with single-rule chains / captures / max_tokens / nested %json / stop= / parametric chains) is compiled "
+                "through the real entry point with hook H2 installed; the hook delivers the rule table before and after Grammar::optimize(). "
+                "Oracle: the set of ALL terminal-id sequences of length <= L (L=6, lowered to 5,4,3 when a set exceeds 20000 sequences; "
+                "below that the case is inconclusive) derivable from the start symbol, computed independently by Kleene iteration over "
+                "reachable (symbol, parameter value) pairs, with capture / stop-capture / max_tokens symbols kept as bracket pseudo-terminals "
+                "and sub-grammar symbols as opaque leaves, must be identical before and after; and the sorted list of special-symbol tags "
+                "reachable from the start symbol must be identical. evaluations = sequences in the compared bounded languages. "
+                "Non-trivial = optimisation that removed >=1 rule-bearing symbol on a grammar with >=2 sequences; distinct by grammar.",
+        "assumptions": ["lexeme indices are unchanged by optimisation (same LexerSpec), so terminals are compared by index"],
+        "quick": {"runs": [q(deadline=45)], "floor": {"optimisations_observed": 1500, "optimisations_that_removed_symbols": 500, "distinct_nontrivial": 300, "sequences_compared": 20000}},
+        "thorough": {"runs": [q(deadline=1200, watchdog=3600)], "floor": {"optimisations_observed": 30000}},
+    },
+    "C18": {
+        "eval_counter": "stop_decisions_checked",
+        "case_counter": "matcher_cases",
+        "rule": "four workloads by idx mod 4. Matcher: walk through the masks; after every commit the stop status is compared with a "
+                "reference TokenParser driven WITHOUT check_stop (stop due <=> accepting and no non-EOS token in its mask), EOS commit in an "
+                "accepting state must stop with EndOfSentence; at the stop the decoded text must be a complete string for an independent "
+                "single-byte engine, no token is accepted any more, compute_mask fails and compute_mask_or_eos is exactly {EOS}; illegal "
+                "calls (token outside the mask, id >= vocab) are issued on clones: they must fail and either fail for good or leave the "
+                "clone answering exactly like the untouched engine. Constraint (with / without ff_tokens): sampling loop with out-of-order "
+                "commits and tokens outside the mask on clones, stop latched and sticky, text at stop complete. StopController (Rust and "
+                "through the same object used by llg_stop_commit_token): random stop tokens / literal stop strings / stop regex (reference "
+                "DFA) over token streams that split stops across tokens, overlap candidates, contain multi-byte characters and special "
+                "tokens; model = earliest match end per segment between special tokens; the concatenated returns must equal the text before "
+                "the first stop, nothing after it, stopped flag in step with the model, no U+FFFD for valid text, withheld tail <= longest "
+                "stop + 3 bytes. evaluations = stop decisions compared. Non-trivial = run that reached a stop; distinct by (grammar or stop "
+                "spec, history).",
+        "assumptions": ["cases where several stop matches of different lengths end at the same earliest position are skipped (ambiguous exclusion length)"],
+        "quick": {"runs": [q(deadline=45)], "floor": {"matcher_cases": 500, "constraint_cases": 500, "stop_cases": 1000, "stopped_runs": 800, "illegal_calls": 300, "distinct_nontrivial": 600}},
+        "thorough": {"runs": [q(deadline=1200, watchdog=3600)], "floor": {"matcher_cases": 10000, "stop_cases": 20000}},
+    },
 }
